@@ -240,7 +240,7 @@ fn ks_definitional(ctx: &mut Ctx, fl: Flavor) {
         let mut ops = Vec::new();
         for &k in &sizes {
             let op = if raw_ks {
-                *ctx.rng.pick(&[CoreOp::WriteBlock, CoreOp::WriteBlocks])
+                *ctx.rng.pick(&[CoreOp::WriteBlock, CoreOp::WriteBlocks, CoreOp::BackendWrite, CoreOp::BackendWrite])
             } else {
                 *ctx.rng.pick(&[CoreOp::ApplyBlockInout, CoreOp::ApplyBlocks, CoreOp::ApplyBlocksInout])
             };
